@@ -75,7 +75,7 @@ def _sign_class(atoms) -> Optional[str]:
     return None
 
 
-def _rows(f: Fn):
+def _rows(f: Fn, strict: bool = True):
     """(return node, guard atoms, shape) for every (return, reaching-def combination)."""
     out = []
     for r in f.returns():
@@ -87,7 +87,10 @@ def _rows(f: Fn):
             out.append((r, f.guard_atoms(r.id), v, {}))
             continue
         if len(set(local_names)) > 1:
-            raise Unknown(f'{f.q}: return `{text(v)}` mixes several locals')
+            if strict:
+                raise Unknown(f'{f.q}: return `{text(v)}` mixes several locals')
+            out.append((r, f.guard_atoms(r.id), v, {}))
+            continue
         nm = local_names[0]
         for (site, dv) in f.lf.values_reaching(r.id, nm):
             if dv is None:
@@ -147,7 +150,7 @@ def r1_term_rendering(R) -> None:
             R.violation(f.q, f'str-row-missing:{cls}', f'Term.__str__ has no rendering row for {cls}', where=f.fi.where)
     # ---- Term.code
     g = Fn(R, f'{P}.Term.code')
-    rows = _rows(g)
+    rows = _rows(g, strict=False)
     got_rows: Dict[str, bool] = {}
     for (r, atoms, v, binds) in rows:
         tsets = [(_type_set(a), truth) for (a, truth, _tn) in atoms]
@@ -178,7 +181,21 @@ def r1_term_rendering(R) -> None:
                 ) for x in ast.walk(g.fi.node)
                 if isinstance(x, ast.Call) and 'replacement_function_names' in text(g.fi.node) and _mentions_table_loop(g.fi.node)
             )
-            if not ok:
+            partial_key = None
+            if not ok and method_call(v, 'get') and text(v.func.value) == 'replacement_function_names' and len(v.args) >= 1:
+                k = v.args[0]
+                whole = False
+                if isinstance(k, ast.Name):
+                    kd = g.lf.values_reaching(r.id, k.id)
+                    whole = bool(kd) and all(dv is not None and isinstance(dv, ast.Call) and dotted(dv.func) == 'str' and text(dv.args[0]) == 'self' for (_s, dv) in kd)
+                if not whole:
+                    partial_key = text(k)
+            if partial_key is not None:
+                R.violation(g.q, 'code-function-partial-key:' + partial_key[:40],
+                            f'the replacement table is looked up with `{partial_key}`, not with the whole function name: a namespaced or longer name whose '
+                            f'part matches a key (np.max, my.log) would be replaced by a different function while the normalised equation keeps the name written',
+                            where=g.where(r))
+            elif not ok:
                 if _mentions_table_loop(g.fi.node) or any(isinstance(x, ast.Call) and isinstance(x.func, ast.Attribute)
                                                          and x.func.attr in ('replace', 'sub') for x in ast.walk(v)):
                     R.violation(g.q, 'code-function-substring', 'function names are replaced by a substring operation, not an exact-key lookup '
@@ -272,6 +289,13 @@ def template_free_names(template: str) -> Set[str]:
     return {x for x in loads - bound if not hasattr(builtins, x)}
 
 
+def kwarg_of(call, name):
+    for k in call.keywords:
+        if k.arg == name:
+            return k.value
+    return None
+
+
 def r3_one_template(R) -> None:
     f = Fn(R, f'{P}.parse_equation')
     fmts = []
@@ -312,6 +336,17 @@ def r3_one_template(R) -> None:
             f'equation fields are `{text(le.elt)}`', where=f.where(ne))
     R.check(text(lc.elt) == f'{vc}.code', f.q, 'code-elt:' + text(lc.elt), 'code fields are term.code', f'code fields are `{text(lc.elt)}`',
             where=f.where(nc))
+    # what is attached to the symbol is exactly what was formatted (no later rewriting of either text)
+    reps = [n for n in f.cfg.nodes if n.kind == 'stmt' and n.ast is not None and any(method_call(x, '_replace') and kwarg_of(x, 'equation') is not None for x in ast.walk(n.ast))]
+    if R.require(f.q, len(reps), 'symbol._replace(equation=equation, code=code)', fi=f.fi, pred=lambda x: method_call(x, '_replace')):
+        rp = reps[0]
+        c = [x for x in ast.walk(rp.ast) if method_call(x, '_replace')][0]
+        for nm, fmt_node in (('equation', ne), ('code', nc)):
+            v = kwarg_of(c, nm)
+            okv = isinstance(v, ast.Name) and f.lf.defs_reaching(rp.id, v.id) == frozenset([fmt_node.id])
+            R.check(okv, f.q, f'attached-{nm}', f'the {nm} attached to the symbol is the formatted template, unmodified',
+                    f'`{nm}={text(v) if v is not None else "?"}` attached to the endogenous symbol is not (only) the result of template.format(...): it is rewritten '
+                    f'after formatting, so the normalised equation and the generated code no longer denote the same expression', where=f.where(rp))
     # terms = parse_equation_terms(<the same text the placeholders are cut from>)
     terms_src = None
     if isinstance(ite, ast.Name):
